@@ -277,8 +277,20 @@ def reorderGlyphs(font: ttLib.TTFont, new_glyph_order: List[str]):
     for tag in ["CFF ", "CFF2"]:
         if tag in font:
             cff_table = font[tag]
-            charstrings = cff_table.cff.topDictIndex[0].CharStrings.charStrings
-            cff_table.cff.topDictIndex[0].charset = new_glyph_order
-            cff_table.cff.topDictIndex[0].CharStrings.charStrings = {
-                k: charstrings.get(k) for k in new_glyph_order
-            }
+            top_dict = cff_table.cff.topDictIndex[0]
+            cs = top_dict.CharStrings
+            charstrings = cs.charStrings
+            top_dict.charset = new_glyph_order
+            if cs.charStringsAreIndexed:
+                # charStrings maps glyph names to positions in the CharStrings
+                # INDEX, which other code (like FDSelect) addresses by glyph ID:
+                # keep both in the new glyph order.
+                csi = cs.charStringsIndex
+                old_indices = [charstrings[k] for k in new_glyph_order]
+                csi.items = [csi[i] for i in old_indices]
+                if hasattr(top_dict, "FDSelect"):
+                    sel = top_dict.FDSelect
+                    sel.gidArray = [sel.gidArray[i] for i in old_indices]
+                cs.charStrings = {k: i for i, k in enumerate(new_glyph_order)}
+            else:
+                cs.charStrings = {k: charstrings.get(k) for k in new_glyph_order}
